@@ -229,8 +229,13 @@ class Ctx:
         env = {"VERIF_TRACE": os.path.abspath(tracefile)}
         if extra_env:
             env.update(extra_env)
+        # TLC evaluates long traces / large records recursively: the default 1 MB thread stack
+        # overflows (StackOverflowError is an infrastructure problem, not a verdict)
+        jopts = "-Xss512m"
         if dfs:
-            env["JAVA_TOOL_OPTIONS"] = "-Dtlc2.tool.queue.IStateQueue=StateDeque"
+            jopts += " -Dtlc2.tool.queue.IStateQueue=StateDeque"
+        if "JAVA_TOOL_OPTIONS" not in env:
+            env["JAVA_TOOL_OPTIONS"] = jopts
         cmd = ["tlc", "-workers", "1", "-metadir", os.path.join(d, "md"), "-config", cfg, module]
         t = time.time()
         rc, out, err = self.run(cmd, timeout, cwd=d, env=env)
